@@ -6,7 +6,8 @@ spec's own table + alignment), (c) the executed recurrence is the published one 
 right coefficient on the right history entry at every phase, also after restart.
 (a) is monitored on the real code (XL energy/forces with P = converged D vs SCF); the KSA kernel update at P != D must
 solve the Newton equation it reports (achieved residual by finite differences of the real D[P] = published Krylov error,
-per molecule of a batch, ranks 1..3).
+per molecule of a batch, ranks 1..3); at electronic temperatures with fractional occupations the KSA forces are minus the
+gradient of the free energy the engine reports (Etot + entropy term), i.e. that potential is the constant of motion.
 Not decided: linear stability over the response range, dt^2 scaling, convergence to BO.
 """
 
@@ -58,6 +59,42 @@ def ksa_kernel(job):
     Ju = 0.5 * (Dp - Dm) / (2 * eps) - u
     ach = (Ju - f).flatten(1).norm(dim=1) / f.flatten(1).norm(dim=1)
     return {"achieved": [float(x) for x in ach], "reported": [float(x) for x in err], "update_norm": [float(x) for x in u.flatten(1).norm(dim=1)]}
+
+
+def free_energy_forces(job):
+    """KSA branch at an electronic temperature that gives fractional occupations: the forces must be minus the gradient of the
+    free energy the engine reports as its potential (Etot + electronic-entropy term), evaluated at the finite-temperature
+    self-consistent density (central differences along one direction)."""
+    from drivers import scf_driver
+    from seqm.ElectronicStructure import Electronic_Structure
+    from seqm.Molecule import Molecule
+    from seqm.seqm_functions.constants import Constants
+
+    mdlib.use_stub(False)
+    common.quiet_stdio()
+    Tel, rank, names = float(job["T_el"]), int(job["rank"]), job["mols"]
+
+    def A(shift):
+        xp = {"k": 5, "max_rank": rank, "err_threshold": 0.0, "T_el": Tel}
+        p = mdlib.seqm_params(scf_converger=[3, {"max_rank": rank, "err_threshold": 0.0, "T_el": Tel}], scf_eps=1e-11)
+        sp, xyz, q, mult = scf_driver.build_batch(names, displace=0.05)
+        mol = Molecule(Constants(), p, xyz + shift, sp, charges=q, mult=mult)
+        mol.verbose = False
+        es = Electronic_Structure(p)
+        es(mol)
+        P = mol.dm.clone()
+        es(mol, P0=P, dm_prop="XL-BOMD", xl_bomd_params=xp)
+        return (mol.Etot + mol.Electronic_entropy).detach().clone(), mol.force.detach().clone(), mol.Electronic_entropy.detach().clone(), float((mol.dm - P).abs().max())
+
+    sp, xyz, q, mult = scf_driver.build_batch(names, displace=0.05)
+    g = torch.Generator().manual_seed(4)
+    d = (torch.rand(xyz.shape, generator=g, dtype=torch.float64) - 0.5) * (sp > 0).unsqueeze(-1)
+    A0, F0, S0, res = A(0 * d)
+    h = 1.0e-4
+    Ap, Am = A(h * d)[0], A(-h * d)[0]
+    fd = (Ap - Am) / (2 * h)
+    an = -(F0 * d).sum(dim=(1, 2))
+    return {"entropy_term": [float(x) for x in S0], "self_consistency": res, "fd": [float(x) for x in fd], "minus_F_dot_d": [float(x) for x in an]}
 
 
 def validate(traces, scratch):
@@ -213,6 +250,24 @@ def main(tier):
                 if dev > 1.0 or o["update_norm"][m] == 0.0:
                     rep.violation("ksa_kernel_update_does_not_solve_its_newton_equation", {"job": j, "molecule": m, "achieved_residual": a, "reported_krylov_error": b, "update_norm": o["update_norm"][m]},
                                   engine="ksa", rank=j["rank"], batch=len(j["mols"]))
+        fjobs = [dict(mols=m, T_el=t, rank=2) for m in (["h2o"], ["nh3", "h2o"]) for t in ((30000.0,) if tier == "quick" else (15000.0, 30000.0, 60000.0))]
+        fres = common.run_forked(fjobs, free_energy_forces, timeout=900)
+        fworst = 0.0
+        smin = 0.0
+        for j, rr in zip(fjobs, fres):
+            if not rr.get("ok"):
+                rep.machinery("free-energy monitor failed: " + str(rr.get("error")) + str(rr.get("tb", ""))[-300:])
+                continue
+            o = rr["result"]
+            smin = min(smin, min(o["entropy_term"]))
+            for m, (a, b) in enumerate(zip(o["fd"], o["minus_F_dot_d"])):
+                fworst = max(fworst, abs(a - b))
+                if abs(a - b) > 1.0e-6:
+                    rep.violation("ksa_forces_are_not_the_gradient_of_the_reported_free_energy", {"job": j, "molecule": m, "finite_difference": a, "minus_F_dot_d": b, "entropy_term": o["entropy_term"][m]}, engine="ksa", rank=j["rank"], batch=len(j["mols"]))
+        if smin > -0.1:
+            rep.machinery("free-energy monitor is vacuous: no fractional occupations")
+        mon["free_energy_force_worst_abs_dev"] = fworst
+        mon["free_energy_largest_entropy_term"] = smin
         mon["ksa_kernel_jobs"] = len(kjobs)
         mon["ksa_kernel_worst_dev_over_tol"] = kworst
         cov = {
